@@ -157,7 +157,7 @@ Final(ln) ==
     /\ bad' = IF PendLeft # {} THEN Mark("TrackerFaithful:hand-off-missing") ELSE bad
     /\ UNCHANGED <<tlog, tap, real, tup, pend, cs, drift>>
 
-Known == {"reset", "apply", "track", "install", "restart", "snapshot", "down", "ack", "obs", "final"}
+Known == {"reset", "apply", "track", "install", "restart", "snapshot", "down", "ack", "noack", "obs", "final"}
 
 Step ==
     /\ l < N
@@ -170,6 +170,7 @@ Step ==
        \/ ln.ev = "snapshot" /\ Snapshot(ln) /\ UNCHANGED stuck
        \/ ln.ev = "down" /\ Down(ln) /\ UNCHANGED stuck
        \/ ln.ev = "ack" /\ Ack(ln) /\ UNCHANGED stuck
+       \/ ln.ev = "noack" /\ UNCHANGED <<tlog, tap, real, tup, pend, cs, bad, drift, stuck>>   \* Submit timed out / failed: the entry may or may not be committed
        \/ ln.ev = "obs" /\ Obs(ln) /\ UNCHANGED stuck
        \/ ln.ev = "final" /\ Final(ln) /\ UNCHANGED stuck
        \/ ln.ev \notin Known /\ stuck' = Append(stuck, l + 1)
